@@ -117,3 +117,14 @@ claim("C20",
       "AttributeError/IndexError/TypeError/KeyError/RecursionError/... from inside dendropy are failures.",
       TB, "symbolic execution (CrossHair+z3) of the readers over symbolic truncation points, edit positions/characters and symbolic strings; watchdog for non-termination",
       "DESIGN.md 3/C20")
+
+claim("C02",
+      "Bounded symbolic execution of the writers and readers connected through pure-Python streams. (1) Label rule: the label is a fully "
+      "symbolic string (length bound, alphabet of letters, digits, blank, tab, underscore, quotes, brackets, every NEXUS punctuation mark, a "
+      "non-ASCII letter); escape_nexus_token (both protect_regex variants, the tree-statement one read from the live source) followed by the "
+      "real NexusTokenizer must give back exactly [label, ';'] for every consistent option pair - z3's sequence theory decides the regex and "
+      "delimiter tests for every string in the bound. (2) Whole tree lists through Newick and NEXUS: shapes per shard, adversarial label pool, "
+      "namespace order, TRANSLATE, internal labels, rooting states and tokens, weights, missing/integer/float/scientific lengths. (3) NeXML with "
+      "labels needing XML escaping. Numbers and XML are concrete per path (float<->text and expat are C boundaries).",
+      TB, "symbolic execution (CrossHair+z3 sequence theory) of escape_nexus_token + NexusTokenizer on symbolic labels; symbolic-choice driven write/read round trips of real trees",
+      "DESIGN.md 3/C02")
